@@ -1,29 +1,81 @@
 from common import Rng
 
+def _reachable_cells():
+    """cells of the role matrix in which the statement lets a route through (liveness table: each must
+    show at least one advertisement in every run; `+rr` = the receiving iBGP session has a cluster-id)"""
+    srcs = ["local", "kernel", "peer-ebgp", "peer-ibgp", "peer-rrc", "peer-rsc", "peer-confed"]
+    out = []
+    for s in srcs:
+        for d in ["ebgp", "rsc", "confed", "ibgp", "rrc", "ibgp+rr", "rrc+rr"]:
+            base = d.split("+")[0]
+            if (s == "peer-rsc") != (base == "rsc"):
+                continue                      # route-server boundary (a route server originates nothing either)
+            if base in ("ibgp", "rrc") and s in ("peer-ibgp", "peer-rrc"):
+                if not d.endswith("+rr"):
+                    continue                  # plain iBGP: nothing iBGP-learned goes to an iBGP peer
+                if s == "peer-ibgp" and base == "ibgp":
+                    continue                  # non-client to non-client
+            out.append("cell:%s>%s" % (s, d))
+    return out
+
+
+def _reachable_wire_cells():
+    ks = ["ebgp", "ibgp", "rrc", "rsc", "confed"]
+    out = []
+    for s in ks:
+        for d in ks:
+            if (s == "rsc") != (d == "rsc"):
+                continue
+            if s == "ibgp" and d == "ibgp":
+                continue
+            out.append("wirecell:%s>%s" % (s, d))
+    return out
+
+
 CONFIG = dict(
     claimed=True,
     level_text="Kernel-checked Lean theorems over ALL inputs of the export model: the master theorems (the C09 reference "
-               "checker, one clause per sentence of the statement, accepts every advertisement and every inbound decision "
-               "the model can produce, for every receiver role, source, RR/cluster and confederation configuration, export "
-               "policy of the modelled fragment and every well-formed attribute set) plus one readable theorem per sentence "
-               "(no echo, no non-client to non-client, RS isolation, AS / ORIGINATOR_ID / CLUSTER_LIST loops never installed, "
-               "eBGP: one prepend after stripping confed segments, internal attributes and received MED removed, next hop "
-               "self; iBGP: LOCAL_PREF present, path and next hop untouched; reflection adds ORIGINATOR_ID and the "
-               "cluster-id; confed member AS in a confed sequence; LLGR_STALE; unknown transitive forwarded with Partial, "
-               "non-transitive dropped).  The model is tied to daemon/src/event/export.rs + the AS_PATH helpers of "
-               "packet/src/bgp.rs + rx_update by running the real process_nlri_change / is_as_loop / rx_update and the "
-               "model on the same generated cases (full 7 x 5 x 8 role matrix twice per run, then random cells) and "
-               "diffing every observation, with the reference checker as oracle on the real outputs.",
+               "checker, one clause per sentence of the statement, accepts every advertisement the model can produce for "
+               "every receiver role but route-server client, and every sentence but the one of finding "
+               "F09-rs-client-internal-attributes for RS clients as well; it accepts every inbound decision; it accepts what "
+               "the model does when a route turns LLGR-stale after it was advertised: send, restale_llgr, re-feed), for "
+               "every source, RR/cluster and confederation configuration, export policy of the modelled fragment and every "
+               "well-formed attribute set, plus one readable theorem per sentence (no echo, no non-client to non-client, RS "
+               "isolation, AS / ORIGINATOR_ID / CLUSTER_LIST loops never installed, eBGP: one prepend after stripping confed "
+               "segments, internal attributes and received MED removed, next hop self; iBGP: LOCAL_PREF present, path and "
+               "next hop untouched; reflection adds ORIGINATOR_ID and the cluster-id and only reflection does; confed member "
+               "AS in a confed sequence; LLGR_STALE; unknown transitive forwarded with Partial, non-transitive dropped).  The "
+               "full-strength statements C09_full (all receivers) and C09_wire_full (all router configurations) are kept as "
+               "definitions and refuted for the current code by kernel-evaluated witnesses (three open findings).  The "
+               "model is tied to the code at two levels: (a) the real process_nlri_change / is_as_loop / rx_update / "
+               "Table::insert + restale_llgr and the model on the same generated cases (full 7 x 5 x 8 role matrix twice per "
+               "run, then random cells), every observation diffed; (b) wire cases: a real Global with two neighbours added by "
+               "add_peer, both sessions built by accept_connection on loopback TCP and driven by the real run_select (decode, "
+               "validate_message, AS-loop guard, rx_msg, on_established, handle_prefix_update, flush_tx), the bytes the "
+               "receiver's socket delivers decoded by an independent reader - so role, cluster-id, local AS, confederation "
+               "id, Source and every call-site argument are the daemon's own; the reference checker, which derives the "
+               "sessions from the configuration by the text, is the oracle on all real outputs.",
     level_note="Trusted: Lean kernel; axioms propext/Classical.choice/Quot.sound; the hand-written model (checked only by the "
-               "correspondence stream); harness glue (term <-> packet::Attribute conversion, the transcribed "
-               "`if is_as_loop {continue}` chaining of run_select in front of rx_update, RIB lookup for `installed`). "
+               "correspondence stream); harness glue: term <-> packet::Attribute conversion; for (rx ...) cases the "
+               "transcribed `if is_as_loop {continue}` chaining in front of rx_update (the wire cases run the real guard); "
+               "for wire cases the transcribed preamble of session_loop and the pump (run_select under a 2 ms idle "
+               "timeout), the scripted remote speaker (own OPEN/UPDATE encoder) and the independent UPDATE reader. "
                "Modelled, not verified: export policy beyond one statement with an ORIGIN condition and next-hop / MED / "
                "community-add actions (C14), RTC filter, BMP Adj-RIB-Out notifications, the position at which "
                "inject_local_pref_if_absent inserts into an unsorted vector (std binary search; observations are sorted "
-               "by code), malformed AS_PATH payloads (Attribute::decode rejects them, C05/C17).",
+               "by code), malformed AS_PATH payloads (Attribute::decode rejects them, C05/C17).  The wire cases have no "
+               "theorem of their own (WireCase.run composes rxInstalled and exportOne on the parameters accept_connection "
+               "derives); they are covered by the correspondence stream and the oracle.  The oracle tests presence / "
+               "containment for ORIGINATOR_ID, the cluster-id and LOCAL_PREF; their values are compared by the model diff.",
     lean_modules=["Rbgp.Export.Props"],
     theorems=[
         "Rbgp.Export.Props.check_run_ok",
+        "Rbgp.Export.Props.check_run_all_but_rs",
+        "Rbgp.Export.Props.advertised_iff",
+        "Rbgp.Export.Props.C09_full_fails",
+        "Rbgp.Export.Props.check_stale_ok",
+        "Rbgp.Export.Props.stale_is_readvertised",
+        "Rbgp.Export.Props.C09_wire_full_fails",
         "Rbgp.Export.Props.check_rx_ok",
         "Rbgp.Export.Props.no_echo",
         "Rbgp.Export.Props.no_nonclient_to_nonclient",
@@ -31,6 +83,7 @@ CONFIG = dict(
         "Rbgp.Export.Props.as_loop_rejected",
         "Rbgp.Export.Props.originator_loop_rejected",
         "Rbgp.Export.Props.cluster_loop_rejected",
+        "Rbgp.Export.Props.nonreflected_keeps_originator_and_cluster",
         "Rbgp.Export.Props.ebgp_prepend_once_after_strip",
         "Rbgp.Export.Props.prepend_first_as",
         "Rbgp.Export.Props.prepend_hops",
@@ -49,33 +102,64 @@ CONFIG = dict(
     harness=dict(kind="daemon", test="event::verif_event::c09::verif_main"),
     profiles=["debug"],
     n_quick=2600, n_thorough=200000, shards=12,
-    nontrivial_re=r"\(reach|\(installed f",
+    nontrivial_re=r"\(reach|\(installed f|absent",
+    oracle_stats=True,
+    expect_judged=_reachable_cells() + _reachable_wire_cells() + [
+        "exp-judged", "exp2-judged", "stale-readvertised", "rx-judged", "wire-judged", "rx-as-loop", "rx-originator-loop",
+        "rx-cluster-loop", "wire-as-loop:ibgp", "wire-as-loop:rrc", "wire-as-loop:confed", "wire-as-loop:ebgp",
+        "wire-as-loop:rsc", "wire-originator-loop:ibgp", "wire-originator-loop:rrc", "wire-originator-loop:confed",
+        "wire-cluster-loop:ibgp", "wire-cluster-loop:rrc", "wire-cluster-loop:confed"],
     rule="the full matrix source {local, kernel, eBGP, iBGP, RR-client, RS-client, confed} x receiver role {eBGP, RS-client, "
          "iBGP, RR-client, confed-eBGP} x {cluster-id set / unset} x {confederation id set / unset} x {source LLGR-stale or "
-         "not} (280 cells, once with every attribute present and once with a random set), then random cells; attribute sets: "
+         "not} (280 cells, once with every attribute present and once with a random set), 30 loop-free wire cells "
+         "(announcing neighbour kind x receiving neighbour kind or none), then random cases: 66 % exp, 10 % exp2 (the "
+         "neighbour turns LLGR-stale after the first send), 6 % wire (2 % in the thorough tier), 18 % rx.  Attribute sets: "
          "each of ORIGIN, AS_PATH (0-4 segments of all four types, lengths 0-5, 254, 255, local AS / confederation id "
          "planted), MED, LOCAL_PREF, ATOMIC_AGGREGATE, AGGREGATOR, COMMUNITY (with LLGR_STALE / NO_LLGR), ORIGINATOR_ID, "
-         "CLUSTER_LIST, EXT_COMMUNITY, AIGP, LARGE_COMMUNITY present or absent, 0-3 unknown attributes with flags from "
-         "{C0,E0,80,A0,D0,40,00,F0,90}, shuffled order and duplicates now and then; next hop none / IPv4 / IPv6 / "
-         "link-local pair / unspecified; families IPv4, IPv6, Flowspec; add-path branch (effective_max 2,3); export policy "
-         "none or one statement (ORIGIN condition, next-hop self/peer/unchanged/address, MED set/mod, community add, "
-         "accept/reject/pass); echo (source address = receiver); inbound cases with planted AS / ORIGINATOR_ID / cluster-id "
-         "loops; 2.5 % syntactically damaged cases.  Non-trivial = an advertisement was produced or an inbound route was "
-         "refused; distinct = distinct case line",
+         "CLUSTER_LIST, EXT_COMMUNITY, AIGP, LARGE_COMMUNITY present or absent, 0-3 unknown attributes with distinct codes "
+         "and flags from {C0,E0,80,A0,D0,40,00,F0,90}, shuffled order now and then, one deliberate duplicate in 30; next "
+         "hop none / IPv4 / IPv6 / link-local pair / unspecified; families IPv4, IPv6, Flowspec; add-path branch "
+         "(effective_max 2,3); export policy none or one statement (ORIGIN condition, next-hop "
+         "self/peer/unchanged/address, MED set/mod, community add, accept/reject/pass); echo (source address = "
+         "receiver); inbound cases with planted AS / ORIGINATOR_ID / cluster-id loops.  Wire cases: global AS, router-id, "
+         "confederation (id + members, sometimes repeating the local AS) or none; per neighbour remote AS by kind, "
+         "per-neighbour local AS now and then, RS-client / RR-client flags, cluster-id configured one time in four (also on "
+         "sessions that are not iBGP); attribute sets a real neighbour of that kind can send (mandatory attributes, confed "
+         "segments only from confederation members, optional flag on unknown attributes) with the router's AS, the "
+         "confederation id, the router-id and the cluster-ids planted; receiver established before (live change) or "
+         "after (dump) the announcement.  2.5 % syntactically damaged cases.  Non-trivial = an advertisement was produced "
+         "or an inbound route was refused; distinct = distinct case line",
     expect_tokens=["suppressed", "(reach 0", "(reach 1", "(installed f)", "(installed t)", "(bad-case)", "(v6ll ", "(aspath (3 ",
-                   "(aspath (2 ", "(words 10 ", "(val 9 ", "(val 5 100)", "4294901766", "(opq ", "none (attrs"],
-    trusted_base=["model lean/Rbgp/Export/Model.lean of daemon/src/event/export.rs, the AS_PATH helpers of packet/src/bgp.rs and the "
-                  "loop tests of rx_update / run_select",
+                   "(aspath (2 ", "(words 10 ", "(val 9 ", "(val 5 100)", "4294901766", "(opq ", "none (attrs",
+                   "(twice (reach", "(twice suppressed nothing)", "(wire absent", "(wire (installed", "(sent (reach 0"],
+    trusted_base=["model lean/Rbgp/Export/Model.lean of daemon/src/event/export.rs, the AS_PATH helpers of packet/src/bgp.rs, the "
+                  "loop tests of rx_update / run_select, Table::restale_llgr on a one-path destination, and the session "
+                  "parameters accept_connection / add_peer derive from the configuration",
                   "harness/daemon/c09.rs + export_common.rs: attributes are built with Attribute::new_with_value / new_with_bin / "
-                  "new_opaque from structured terms and printed back by an independent walk of the payload bytes; the inbound "
-                  "cases chain the real is_as_loop and the real rx_update as run_select does (transcribed `continue`)"],
+                  "new_opaque from structured terms and printed back by an independent walk of the payload bytes; the (rx) "
+                  "cases chain the real is_as_loop and the real rx_update as run_select does (transcribed `continue`); the "
+                  "wire cases run the real run_select on loopback sockets (transcribed: session_loop preamble, pump)"],
     modelled_not_verified=["export policy beyond the one-statement fragment (C14)", "RTC filter and BMP notifications inside "
                            "process_nlri_change (held at None)", "insert position of inject_local_pref_if_absent in an unsorted "
                            "attribute vector (std partition_point); observations are stably sorted by code",
-                           "AS_PATH payloads that are not a sequence of well-formed segments (cannot come out of Attribute::decode)"],
-    assumptions=["sources are as on_established builds them: role Ibgp / IbgpRrClient iff remote AS = local AS (the checker is "
-                 "vacuous on other sources, the model/implementation comparison is not)",
-                 "attribute sets hold one attribute per code, as the UPDATE decoder guarantees (same remark)"],
+                           "AS_PATH payloads that are not a sequence of well-formed segments (cannot come out of Attribute::decode)",
+                           "wire cases: IPv4 unicast only, one prefix, export policy none, effective_max 1, no LLGR; a looping "
+                           "UPDATE replacing an installed route is not generated (the RIB starts empty)"],
+    assumptions=["sources are as on_established builds them: role Ibgp / IbgpRrClient iff remote AS = local AS, role Ebgp / "
+                 "ConfedEbgp only with another AS (the checker is vacuous on other sources - counted as exp-skipped-not-wf in "
+                 "oracle_clause_counts -, the model/implementation comparison is not)",
+                 "attribute sets hold one attribute per code, as the UPDATE decoder guarantees (same remark)",
+                 "a route-server client is an eBGP peer served transparently: AS_PATH, NEXT_HOP and MED are not rewritten for it "
+                 "(RFC 7947), LOCAL_PREF / ORIGINATOR_ID / CLUSTER_LIST / AIGP are removed as for any eBGP peer (clause "
+                 "rs-client-internal-attribute-sent, open finding)",
+                 "wire cases: LOCAL_PREF, ORIGINATOR_ID and CLUSTER_LIST received from an external neighbour (eBGP peer, RS "
+                 "client) and unrecognised optional non-transitive attributes are not part of the received route (RFC 4271 "
+                 "5, 5.1.5, RFC 7606 7.9, 7.10): the loop sentences are judged on what is left",
+                 "the local cluster-id is the configured one, the router-id otherwise, on every session of the router (open "
+                 "finding F09-cluster-loop-non-ibgp-session); the local AS is the configured one on every session, the "
+                 "confederation id as well when configured (open finding F09-member-as-loop-external-session)",
+                 "local and kernel routes are not expected at route-server clients (rs_isolation_suppress: a route server "
+                 "originates nothing); those two cells are not in the liveness table"],
 )
 
 LASNS = [65001, 4200000001]
@@ -146,10 +230,13 @@ def gen_attrs(r, lasn, confed, rid, cid, rich=False):
         out.append("(bin 32 x0000fde90000000100000002)")
     nop = r.weighted([(0, 6), (1, 5), (2, 2), (3, 1)])
     codes = [99, 200, 255, 11, 128]
-    for _ in range(nop):
+    for i in range(len(codes) - 1, 0, -1):          # drawn without replacement: one attribute per code
+        j = r.below(i + 1)
+        codes[i], codes[j] = codes[j], codes[i]
+    for k in range(nop):
         fl = r.pick([192, 224, 128, 160, 208, 64, 0, 240, 144])
         n = r.pick([0, 1, 3, 4])
-        out.append("(opq %d %d x%s)" % (r.pick(codes), fl, "".join("%02x" % r.below(256) for _ in range(n))))
+        out.append("(opq %d %d x%s)" % (codes[k], fl, "".join("%02x" % r.below(256) for _ in range(n))))
     # order: canonical mostly, shuffled sometimes; a duplicate now and then (spec: not applicable)
     if r.chance(1, 4):
         for i in range(len(out) - 1, 0, -1):
@@ -209,7 +296,7 @@ def gen_nh(r, fam6):
     return "(v4 %d)" % r.pick(V4)
 
 
-def gen_exp(r, cell=None, rich=False):
+def gen_exp(r, cell=None, rich=False, op="exp"):
     lasn = r.pick(LASNS)
     if cell is None:
         kind = r.pick(SRC_KINDS)
@@ -219,6 +306,11 @@ def gen_exp(r, cell=None, rich=False):
         llgr = r.chance(1, 5)
     else:
         kind, role, cluster, confed, llgr = cell
+    if op == "exp2":
+        # the route is advertised first, then its neighbour turns LLGR-stale
+        if kind in ("local", "kernel"):
+            kind = r.pick(["ebgp", "ibgp", "rrc", "rsc", "confed"])
+        llgr = False
     if kind in ("local", "kernel"):
         llgr = False
     fam = r.weighted([("ipv4", 8), ("ipv6", 4), ("fs4", 1)])
@@ -233,8 +325,131 @@ def gen_exp(r, cell=None, rich=False):
     src = gen_source(r, kind, lasn, raddr, fam6, llgr)
     attrs = gen_attrs(r, lasn, confed, rid, cluster, rich)
     nh = gen_nh(r, fam6) if fam != "fs4" else r.pick(["none", "none", "(v4 167772161)"])
-    path = "(path %d %s %s)" % (r.pick([1, 1, 2, 7, 4294967295]), nh, attrs)
-    return "(exp %s %s %s %s %s)" % (ctx, sess, gen_policy(r, fam6), src, path)
+    path = "(path %d %s %s)" % (1 if op == "exp2" else r.pick([1, 1, 2, 7, 4294967295]), nh, attrs)
+    return "(%s %s %s %s %s %s)" % (op, ctx, sess, gen_policy(r, fam6), src, path)
+
+
+# ---- wire cases: one router, two neighbours on loopback addresses, everything derived by the real code
+W_LADDR = 2130706433          # 127.0.0.1
+W_SRC = 2130706434            # 127.0.0.2
+W_DST = 2130706435            # 127.0.0.3
+W_RID = [16843009, 167772167]
+W_KINDS = ["ebgp", "ibgp", "rrc", "rsc", "confed"]
+
+
+def gen_nbr(r, kind, a, asn, confed_members, rid):
+    lasn = 0
+    own = asn
+    if r.chance(1, 12):
+        lasn = own = 65010
+    rs = rrc = "f"
+    if kind == "ebgp":
+        rasn = r.pick([65002, 65003])
+    elif kind == "rsc":
+        rasn = r.pick([65002, 65003]); rs = "t"
+    elif kind == "ibgp":
+        rasn = own
+    elif kind == "rrc":
+        rasn = own; rrc = "t"
+    else:
+        rasn = r.pick(confed_members)
+    clv = r.pick([16909060, 16843009]) if r.chance(1, 4) else None
+    cl = "(some %d)" % clv if clv is not None else "none"
+    return "(nbr (v4 %d) %d %d %d %s %s %s)" % (a, rasn, lasn, rid, rs, rrc, cl), rasn, own, clv
+
+
+def gen_wire_attrs(r, kind, rasn, own, confed_id, members, rid, cids, clean=False):
+    out = ["(val 1 %d)" % r.pick([0, 1, 2])]
+    # AS_PATH a real neighbour of that kind could send
+    dom = [65020, 65021, 23456, 1]
+    loop = r.weighted([("none", 6), ("own", 2), ("confed", 1 if confed_id else 0), ("asn", 1)])
+    if clean:
+        loop = "none"
+        rid = 84215045
+        cids = [50462976]
+    segs = []
+    if kind in ("ebgp", "rsc"):
+        first = [rasn] + [r.pick(dom) for _ in range(r.below(3))]
+        if loop == "own":
+            first.append(own)
+        if loop == "confed":
+            first.append(confed_id)
+        segs.append((2, first))
+        if r.chance(1, 4):
+            segs.append((1, [r.pick(dom) for _ in range(1 + r.below(2))]))
+    elif kind == "confed":
+        cs = [rasn] + [r.pick(members) for _ in range(r.below(2))]
+        if loop == "own":
+            cs.append(own)
+        segs.append((3, cs))
+        if r.chance(1, 5):
+            segs.append((4, [r.pick(members)]))
+        if r.chance(2, 3):
+            ext = [r.pick(dom) for _ in range(1 + r.below(2))]
+            if loop == "confed":
+                ext.append(confed_id)
+            segs.append((2, ext))
+    else:
+        if r.chance(3, 4):
+            ext = [r.pick(dom) for _ in range(1 + r.below(3))]
+            if loop == "own":
+                ext.append(own)
+            if loop == "confed":
+                ext.append(confed_id)
+            segs.append((2, ext))
+    out.append("(aspath%s)" % "".join(" (%d%s)" % (t, "".join(" %d" % a for a in asns)) for t, asns in segs))
+    if r.chance(1, 2):
+        out.append("(val 4 %d)" % r.pick([0, 5, 100]))
+    if kind in ("ibgp", "rrc", "confed") and r.chance(3, 4) or r.chance(1, 4):
+        out.append("(val 5 %d)" % r.pick([50, 100, 200]))
+    if r.chance(1, 6):
+        out.append("(bin 6 x)")
+    if r.chance(1, 3):
+        out.append("(words 8%s)" % "".join(" %d" % r.pick([4259840100, 4259840200, 4294967041]) for _ in range(1 + r.below(2))))
+    if r.chance(1, 3):
+        out.append("(val 9 %d)" % r.pick([rid, rid, 33686018, 84215045]))
+    if r.chance(1, 3):
+        n = 1 + r.below(3)
+        out.append("(words 10%s)" % "".join(" %d" % r.pick(cids + [50462976, 67305985]) for _ in range(n)))
+    elif kind in ("ibgp", "rrc", "confed") and not clean and r.chance(1, 5):
+        out.append("(words 10 %d)" % cids[0])
+    if r.chance(1, 4):
+        out.append("(bin 26 x01000b0000000000000064)")
+    if r.chance(1, 6):
+        out.append("(bin 32 x0000fde90000000100000002)")
+    codes = [99, 200, 255]
+    for k in range(r.weighted([(0, 5), (1, 3), (2, 1)])):
+        out.append("(opq %d %d x%s)" % (codes[k], r.pick([192, 224, 128, 160]), "".join("%02x" % r.below(256) for _ in range(r.pick([0, 1, 4])))))
+    return "(attrs%s)" % "".join(" " + a for a in out)
+
+
+def gen_wire(r, cell=None):
+    asn = r.pick(LASNS)
+    rid = r.pick(W_RID)
+    members = [65101, 65102]
+    has_confed = r.chance(1, 3)
+    if cell is None:
+        ks = r.pick(W_KINDS)
+        kd = r.pick(W_KINDS + ["none"])
+    else:
+        ks, kd = cell
+    if "confed" in (ks, kd):
+        has_confed = True
+    confed_id = 65100 if has_confed else 0
+    confed = "(confed 65100 %s)" % " ".join(str(m) for m in (members + ([asn] if r.chance(1, 2) else []))) if has_confed else "none"
+    src, rasn, own, clv = gen_nbr(r, ks, W_SRC, asn, members, 33686018)
+    dst = "none" if kd == "none" else gen_nbr(r, kd, W_DST, asn, members, 50529027)[0]
+    # the cluster-id in force on the announcing session, planted half of the time
+    eff = clv if clv is not None else rid
+    cids = [eff, eff, eff, rid, 16909060, 50462976]
+    attrs = gen_wire_attrs(r, ks, rasn, own, confed_id, members, rid, cids, clean=cell is not None)
+    nh = r.pick([W_SRC, 167772161])
+    return "(wire (glob %d %d %s (v4 %d)) %s %s %s (v4 %d) %s)" % (
+        asn, rid, confed, W_LADDR, src, dst, r.pick(["t", "f"]), nh, attrs)
+
+
+def wire_matrix(r):
+    return [gen_wire(r, (ks, kd)) for ks in W_KINDS for kd in W_KINDS + ["none"]]
 
 
 def gen_rx(r):
@@ -276,11 +491,15 @@ def matrix(r, rich):
 
 def gen(seed, n, tier):
     r = Rng(seed * 1000003 + 9)
-    cases = matrix(r, True) + matrix(r, False)          # 2 x 280 cells
+    cases = matrix(r, True) + matrix(r, False) + wire_matrix(r)          # 2 x 280 cells + 30 wire cells
     while len(cases) < n:
         k = r.below(100)
-        if k < 80:
+        if k < 66:
             c = gen_exp(r)
+        elif k < 76:
+            c = gen_exp(r, op="exp2")
+        elif k < 82 if tier == "quick" else k < 78:
+            c = gen_wire(r)
         else:
             c = gen_rx(r)
         if r.chance(1, 40):
